@@ -81,6 +81,38 @@ func c14ParsePerf(s string) (events.Performance, error) {
 	}, nil
 }
 
+// c14Flaky refuses chosen calls of Add (counted from 0) without forwarding them: an underlying collector that fails
+// transiently. What the event collectors hand over is independent of whether a write is accepted.
+type c14Flaky struct {
+	ftdc.Collector
+	fail  map[int]bool
+	calls int
+}
+
+func (f *c14Flaky) Add(d interface{}) error {
+	k := f.calls
+	f.calls++
+	if f.fail[k] {
+		return errors.New("c14 underlying collector refuses this write")
+	}
+	return f.Collector.Add(d)
+}
+
+// "dyn!0,3" -> ("dyn", {0,3})
+func c14SplitUnder(under string) (string, map[int]bool) {
+	i := strings.IndexByte(under, '!')
+	if i < 0 {
+		return under, nil
+	}
+	m := map[int]bool{}
+	for _, t := range strings.Split(under[i+1:], ",") {
+		if k, err := strconv.Atoi(t); err == nil {
+			m[k] = true
+		}
+	}
+	return under[:i], m
+}
+
 func c14NewEvents(kind string, n int, fc ftdc.Collector) events.Collector {
 	switch kind {
 	case "cum":
@@ -120,7 +152,11 @@ func c14Flat(d *birch.Document) string {
 
 func c14Run(o *out, c c14case) {
 	w := &logWriter{}
-	fc := newCollector(c.under, c.chunk, w)
+	base, failing := c14SplitUnder(c.under)
+	fc := newCollector(base, c.chunk, w)
+	if failing != nil {
+		fc = &c14Flaky{Collector: fc, fail: failing}
+	}
 	ec := c14NewEvents(c.kind, c.n, fc)
 	var objs []*events.Performance
 	var ops, added, final []string
@@ -254,8 +290,23 @@ func (r *rng) c14Case() c14case {
 		c.n = 1 + r.intn(5)
 	}
 	c.chunk = 1 + r.intn(6)
-	if c.under == "base" {
+	if strings.HasPrefix(c.under, "base") {
 		c.chunk = 1000 // the base collector refuses samples beyond its capacity
+	}
+	if r.chance(1, 5) {
+		// an underlying collector that refuses some of the first writes (the very first one half of the time)
+		ks := []string{}
+		if r.chance(1, 2) {
+			ks = append(ks, "0")
+		}
+		for k := 1; k < 6; k++ {
+			if r.chance(1, 4) {
+				ks = append(ks, strconv.Itoa(k))
+			}
+		}
+		if len(ks) > 0 {
+			c.under += "!" + strings.Join(ks, ",")
+		}
 	}
 	nops := r.intn(26)
 	if r.chance(1, 10) {
